@@ -161,6 +161,8 @@ struct Cfg {
     status: &'static str,
     /// latency of discovery (ms)
     disc_ms: u64,
+    /// the transport delivers and accepts one byte at a time
+    one_byte: bool,
 }
 
 /// The reference automaton. Returns every allowed prediction (more than one where a frame is
@@ -253,6 +255,10 @@ fn build(hist: &[Kind], cfg: &Cfg) -> Case {
         _ => StatusPlan::Minimal,
     };
     case.adapters.disc_ms = cfg.disc_ms;
+    if cfg.one_byte {
+        case.transport.read_chunk = Some(1);
+        case.transport.write_chunk = Some(1);
+    }
     case.script = hist
         .iter()
         .map(|k| st(When::Idle, if k.honest_enc { Act::EncResponse(EncKind::Honest) } else { Act::Frame { id: k.id, body: k.body.clone() } }))
@@ -392,12 +398,16 @@ pub fn run(cli: Cli) -> ! {
     for secret in [false, true] {
         for status in ["minimal", "none", "full"] {
             for disc_ms in if thorough { vec![0u64, 17_000] } else { vec![0u64] } {
-                cfgs.push(Cfg { secret, status, disc_ms });
+                cfgs.push(Cfg { secret, status, disc_ms, one_byte: false });
             }
         }
     }
     if !thorough {
-        cfgs.push(Cfg { secret: true, status: "minimal", disc_ms: 17_000 });
+        cfgs.push(Cfg { secret: true, status: "minimal", disc_ms: 17_000, one_byte: false });
+    } else {
+        // the same search over a transport that moves one byte at a time
+        cfgs.push(Cfg { secret: true, status: "full", disc_ms: 0, one_byte: true });
+        cfgs.push(Cfg { secret: false, status: "minimal", disc_ms: 17_000, one_byte: true });
     }
     let depth_cap = if thorough { 11 } else { 9 };
     // in the configuration phase only this many further packets are explored per history
@@ -406,7 +416,7 @@ pub fn run(cli: Cli) -> ! {
     if let Some(case) = cli.replay.clone() {
         let names: Vec<String> = serde_json::from_value(case["history"].clone()).unwrap_or_default();
         let hist: Vec<Kind> = names.iter().filter_map(|n| all_kinds.iter().find(|k| k.name == n).cloned()).collect();
-        let cfg = Cfg { secret: case["secret"].as_bool().unwrap_or(false), status: match case["status"].as_str() { Some("none") => "none", Some("full") => "full", _ => "minimal" }, disc_ms: case["disc_ms"].as_u64().unwrap_or(0) };
+        let cfg = Cfg { secret: case["secret"].as_bool().unwrap_or(false), status: match case["status"].as_str() { Some("none") => "none", Some("full") => "full", _ => "minimal" }, disc_ms: case["disc_ms"].as_u64().unwrap_or(0), one_byte: case["one_byte"].as_bool().unwrap_or(false) };
         let obs = crate::sim::run(&build(&hist, &cfg));
         let preds = predict(&hist, &cfg);
         println!("history: {}", hist_json(&hist));
@@ -466,7 +476,7 @@ pub fn run(cli: Cli) -> ! {
                     rep.violation(Violation {
                         key: k,
                         text: format!("history {} secret={} status={} disc_ms={}: {t}", hist_json(h), cfg.secret, cfg.status, cfg.disc_ms),
-                        replay: json!({"history": hist_json(h), "secret": cfg.secret, "status": cfg.status, "disc_ms": cfg.disc_ms}),
+                        replay: json!({"history": hist_json(h), "secret": cfg.secret, "status": cfg.status, "disc_ms": cfg.disc_ms, "one_byte": cfg.one_byte}),
                         weight: h.len() as u64,
                     });
                     return;
